@@ -280,10 +280,45 @@ def enum_resolution(seed):
                         needed = any(o[1].startswith(t2 + "-") for o in H.resolve(kind, src_d, inst_d, [t1])[4])
                         if not needed:
                             fails.append({"model": model, "detail": f"minimal install of {t1} then {t2}: {t2} is satisfied by an installed package and {t1}'s own plan does not touch it, yet the joint plan merges another: {ops}"})
+    # one package installed in several slots, slot-qualified targets given to one resolver in sequence: every addressed slot gets its
+    # own highest version on upgrade (whatever an earlier target of the same package loaded into the plan), nothing on minimal install
+    for deps in ({}, {"RDEPEND": "a/lib"}):
+        src_d = {"a": {"b": {"1.0": dict(deps, SLOT="1"), "1.5": dict(deps, SLOT="1"), "2.0": dict(deps, SLOT="2"), "2.5": dict(deps, SLOT="2"), "3.0": dict(deps, SLOT="3")},
+                       "lib": {"1": {}}, "c": {"1": {"RDEPEND": "a/b:2"}}}}
+        for inst_d in ({"a": {"b": {"1.0": dict(deps, SLOT="1"), "2.0": dict(deps, SLOT="2")}, "lib": {"1": {}}}},
+                       {"a": {"b": {"1.0": dict(deps, SLOT="1"), "2.5": dict(deps, SLOT="2")}, "lib": {"1": {}}}},
+                       {"a": {"b": {"1.5": dict(deps, SLOT="1"), "2.0": dict(deps, SLOT="2"), "3.0": dict(deps, SLOT="3")}, "lib": {"1": {}}}}):
+            for targets in (["a/b:2", "a/b:1"], ["a/b:1", "a/b:2"], ["a/b:3", "a/b:1", "a/b:2"], ["a/c", "a/b:1"], ["a/b:1", "a/c"]):
+                for kind in ("upgrade", "min_install"):
+                    sessions += 1
+                    cases += 1
+                    dg = _digest(src_d, inst_d, targets, kind)
+                    model = {"digest": dg, "source": src_d, "installed": inst_d, "targets": targets, "strategy": kind}
+                    try:
+                        r, src, vdb, failures, ops = H.resolve(kind, src_d, inst_d, targets)
+                    except Exception as e:
+                        fails.append({"model": model, "detail": f"resolution raised {type(e).__name__}: {e}"})
+                        continue
+                    model["ops"] = ops
+                    if failures:
+                        fails.append({"model": model, "detail": f"{kind} of {targets} in one resolver failed: {failures}"})
+                        continue
+                    fin = {p.cpvstr for p in H.final_state(vdb, r)}
+                    for t in targets:
+                        if not t.startswith("a/b:"):
+                            continue
+                        slot = t.split(":")[1]
+                        versions = sorted(v for v, d in src_d["a"]["b"].items() if d["SLOT"] == slot)
+                        inst = [v for v, d in inst_d["a"]["b"].items() if d["SLOT"] == slot]
+                        asserted["highest" if kind == "upgrade" else "reuse"] += 1
+                        if kind == "upgrade" and f"a/b-{versions[-1]}" not in fin:
+                            fails.append({"model": model, "detail": f"upgrade of {targets} in one resolver: slot {slot} of a/b should end at its highest version {versions[-1]}; final state holds {sorted(x for x in fin if x.startswith('a/b-'))}, plan {ops}"})
+                        if kind == "min_install" and inst and any(o[1] in {f"a/b-{v}" for v in versions} and o[1] != f"a/b-{inst[0]}" for o in ops):
+                            fails.append({"model": model, "detail": f"minimal install of {targets}: slot {slot} of a/b is installed ({inst}), yet the plan merges another version of that slot: {ops}"})
     cases += sessions
     return {"name": "C16.resolution.bounded_enumeration",
             "bound": f"{per} seeded universes for each of the fixed seeds {THOROUGH_SEEDS if thorough else QUICK_SEEDS} (<= 4 packages x <= 3 versions, dependencies from {len(H.DEP_TEMPLATES)} templates, random installed subsets), "
-                     "one target each (resolved twice) and as many two-target sessions in one resolver, upgrade and minimal-install strategy, against a brute-force oracle (a version counts as resolvable when some dependency-closed selection containing it can be merged in an order that never needs a dependency cycle); "
+                     "one target each (resolved twice) and as many two-target sessions in one resolver, plus 60 sessions of slot-qualified targets on a package installed in two or three slots, upgrade and minimal-install strategy, against a brute-force oracle (a version counts as resolvable when some dependency-closed selection containing it can be merged in an order that never needs a dependency cycle); "
                      f"policy asserted in {asserted['highest']} upgrade cases with a resolvable highest version, {asserted['installed_equal']} with that version already installed, {asserted['reuse']} minimal installs with an installed match",
             "cases": cases, "failures": fails[:40]}
 
